@@ -48,6 +48,9 @@ def check(ctx):
     ss = [c for c in calls(ga_, "start_state_from_dask")]
     ok = len(ss) == 1 and unparse(kwarg(ss[0], "keys")) == "results" and eqv(ss[0].args[0], "dsk")
     ctx.ob("REACH.needed.seed", ga_, "start_state_from_dask(dsk, keys=results, ...): the set of requested keys, unmodified", ok, "" if ok else f"seeded with `{unparse(kwarg(ss[0], 'keys')) if ss else None}`: an empty request is turned into 'all keys' and tasks nobody asked for are executed")
+    from .C08 import converter_dict_subclasses
+
+    converter_dict_subclasses(ctx)
 
 
 # --------------------------------------------------------------------------- (a)
